@@ -83,8 +83,36 @@ def walk(kind, fnname, n=None, symmetric=False):
     return wp, fn, rets[0]
 
 
-def declared(kind, which, n=None, symmetric=False):
-    """the term ::convex(kind) / ::strong_convexity(kind) returns (a literal for every kind but quadratic)"""
+def inline_symmetric(outer, node, args, callee):
+    """call of ::symmetric(P) (src/function/constraint.cpp): the REAL function is walked on the argument matrix"""
+    arg = outer.ev(args[0])
+    if not isinstance(arg, MV):
+        raise Unsupported(f'{outer.name}: symmetric(..) of something that is not a matrix')
+    docs = astload.dump(TU, 'symmetric')
+    c = {tuple(astload.param_types(f)): f for f in astload.find_definitions(docs, 'symmetric')}
+    if len(c) != 1:
+        raise astload.ExtractionError(f'{len(c)} definitions of symmetric')
+    fn = list(c.values())[0]
+    wp = EigWP(outer.name + '>symmetric', n=outer.dim)
+    wp.decls = outer.decls            # same constants
+    (key, p), = wp.bind_params(fn)
+    wp.env[key] = MV(arg.m)
+    wp.ver[key] = 0
+    rets = []
+    wp.post = lambda w, rv: (rets.append(rv), [])[1]
+    wp.run(fn, astload.REPO + '/' + TU)
+    if len(rets) != 1 or not isinstance(rets[0], MV):
+        raise Unsupported(f'{outer.name}: symmetric(..) does not return a matrix')
+    outer.obligations += wp.obligations
+    outer.inlined = getattr(outer, 'inlined', []) + [fn]
+    return MV(rets[0].m)
+
+
+def declared(kind, which, n=None):
+    """the term ::convex(kind) / ::strong_convexity(kind) returns: a literal for every kind but quadratic, where nano::convex(M) /
+    nano::strong_convexity(M) are eigenvalue tests.  ASSUMED contract for n <= 2 (all eigenvalues of M have a non-negative real part):
+    n = 1: M00 >= 0;  n = 2: trace(M) >= 0 and det(M) >= 0.  The strong-convexity coefficient (smallest eigenvalue) is not modelled: an
+    opaque non-negative real."""
     fn = overload(which, kind)
     name = f'constraint_{kind[:-2]}::{which}'
     wp = EigWP(name, n=n)
@@ -92,15 +120,27 @@ def declared(kind, which, n=None, symmetric=False):
 
     def h_matrix_test(w, node, args, callee):
         calls.append(callee['referencedDecl']['name'])
-        return V(f'|nano::{callee["referencedDecl"]["name"]}(P)|', 'Bool' if which == 'convex' else 'Real', 'bool' if which == 'convex' else 'double')
-    wp.calls = [(r'^(convex|strong_convexity)\|.*matrix_t|^(convex|strong_convexity)\|.*tensor_t<', h_matrix_test)] + list(wp.calls)
+        M = w.ev(args[0])
+        if not isinstance(M, MV) or M.rows != M.cols:
+            raise Unsupported(f'{name}: eigenvalue test of something that is not a square matrix')
+        if which == 'strong_convexity':
+            return V('|nano::strong_convexity(M)|', 'Real', 'double')
+        if M.rows == 1:
+            return V(f'(>= {M.m[0][0]} 0.0)', 'Bool', 'bool')
+        if M.rows == 2:
+            return V(f'(and (>= (+ {M.m[0][0]} {M.m[1][1]}) 0.0) (>= (- (* {M.m[0][0]} {M.m[1][1]}) (* {M.m[0][1]} {M.m[1][0]})) 0.0))', 'Bool', 'bool')
+        raise Unsupported(f'{name}: eigenvalue test for n = {M.rows}')
+    wp.calls = [(r'^symmetric\|', inline_symmetric),
+                (r'^(convex|strong_convexity)\|.*matrix_t|^(convex|strong_convexity)\|.*tensor_t<', h_matrix_test)] + list(wp.calls)
     wp.bind_params(fn)
+    if n is not None:
+        bind_constraint(wp, fn, str(n), n, False)
     rets = []
     wp.post = lambda w, rv: (rets.append(rv), [])[1]
     wp.run(fn, astload.REPO + '/' + TU)
     if len(rets) != 1:
         raise Unsupported(f'{name}: {len(rets)} return paths')
-    return fn, rets[0], calls
+    return fn, rets[0], calls, wp
 
 
 def generic_kind(kind, info, not_decided):
@@ -119,8 +159,8 @@ def generic_kind(kind, info, not_decided):
     count = ('to_real', 'n')
     value, grad = gen.split(poly.normalise_sums(Rt, count)), gen.split(poly.normalise_sums(Gt, count))
     vcs.append(gen.vc(f'{tag}/gradient == d value / d x_i', [], ('=', grad, sx.D(value, X)), source=src))
-    fc, conv, _ = declared(kind, 'convex')
-    fm, mu, _ = declared(kind, 'strong_convexity')
+    fc, conv, _, _ = declared(kind, 'convex')
+    fm, mu, _, _ = declared(kind, 'strong_convexity')
     info.append(fninfo(tag + '::convex', f'::convex(const {kind}&)', path, fc))
     info.append(fninfo(tag + '::strong_convexity', f'::strong_convexity(const {kind}&)', path, fm))
     if conv.t == 'true':
@@ -156,8 +196,12 @@ def bounded_kind(kind, sizes, info, not_decided, symmetric=False, label=''):
             vcs.append(gen.vc(f'{tag}/gradient[{k}] == d value / d x_{k}', [], ('=', Gt[k], sx.D(Rt, xv)), source=src))
         # nano::convex / nano::strong_convexity visit the variant with one lambda per BASE kind: minimum_t / maximum_t bind to constant_t
         fkind = {'minimum_t': 'constant_t', 'maximum_t': 'constant_t'}.get(kind, kind)
-        fc, conv, ccalls = declared(fkind, 'convex', n=n)
-        fm, mu, mcalls = declared(fkind, 'strong_convexity', n=n)
+        fc, conv, ccalls, cwp = declared(fkind, 'convex', n=n)
+        fm, mu, mcalls, mwp = declared(fkind, 'strong_convexity', n=n)
+        for d in cwp.decls + mwp.decls:
+            if d not in gen.decls:
+                gen.decls.append(d)
+        vcs += gen.from_wp(cwp, tag + '::convex', path) + gen.from_wp(mwp, tag + '::strong_convexity', path)
         if n == sizes[0] and not label:
             info.append(fninfo(f'constraint_{kind[:-2]}::convex', f'::convex(const {kind}&)', path, fc))
             info.append(fninfo(f'constraint_{kind[:-2]}::strong_convexity', f'::strong_convexity(const {kind}&)', path, fm))
@@ -166,15 +210,12 @@ def bounded_kind(kind, sizes, info, not_decided, symmetric=False, label=''):
         lin = [('*', Gt[k], ('-', zs[k], xs[k])) for k in range(n)]
         chyps, mu_t = [], real_of(wp, mu) if mu.s == 'Real' and not mcalls else '0.0'
         if ccalls or mcalls:
-            # quadratic_t: convex(P) <=> every eigenvalue of P has a non-negative real part; for n <= 2: trace >= 0 and det >= 0
-            P = wp.env['constraint.m_P'].m
-            if n == 1:
-                chyps = [f'(>= {P[0][0]} 0.0)']
-            elif n == 2:
-                chyps = [f'(>= (+ {P[0][0]} {P[1][1]}) 0.0)', f'(>= (- (* {P[0][0]} {P[1][1]}) (* {P[0][1]} {P[1][0]})) 0.0)']
-            else:
+            # quadratic_t: the declared convexity is the eigenvalue test on the matrix the code passes (symmetric(P) since 6f4bbf5)
+            if n > 2:
                 not_decided.append(f'{tag}: convexity (eigenvalue test of nano::convex not modelled for n > 2)')
                 chyps = None
+            else:
+                chyps = [conv.t]
             mu_t = '0.0'
         elif conv.t not in ('true', 'false'):
             raise Unsupported(f'{tag}: ::convex does not return a literal')
